@@ -120,8 +120,8 @@ def run(tier):
     ]
     V.build_harness("c13")
     nh, steps = (8, 50) if tier == "quick" else (36, 100)
-    # 4 = tiny epochs: uncle candidates meet the next epoch's templates; 5 / 6 = tight cycle / byte (and proposal) limits with a backlog
-    profiles = [4, 5, 0, 2, 3, 6, 4, 0] if tier == "quick" else [4, 5, 0, 6, 2, 3]
+    # 4 = tiny epochs: uncle candidates meet the next epoch's templates; 5 / 6 / 7 = tight cycle / byte / byte-by-proposals limits with a backlog
+    profiles = [4, 5, 0, 2, 3, 6, 7, 0] if tier == "quick" else [4, 5, 0, 6, 2, 7, 3]
     with cf.ThreadPoolExecutor(max_workers=1) as bg:
         fut = bg.submit(phase_mc, c, tier)
         seeds = [(V.seed() * 1000 + i, steps, profiles[i % len(profiles)], i) for i in range(nh)]
@@ -133,7 +133,8 @@ def run(tier):
         tot = {"templates": 0, "judged_ok": 0, "with_commits": 0, "with_uncles": 0, "before_pool_sync": 0, "settled": 0, "on_stale_parent": 0,
                "max_commits": 0, "reorgs": 0, "histories": len(docs),
                "with_uncle_candidates_right_after_epoch_boundary": 0, "uncles_included_after_boundary": 0,
-               "at_cycle_limit": 0, "at_byte_limit": 0, "at_proposal_limit": 0, "at_byte_limit_with_uncles": 0}
+               "at_cycle_limit": 0, "at_byte_limit": 0, "at_proposal_limit": 0, "at_byte_limit_with_uncles": 0,
+               "at_byte_limit_by_proposals": 0}
         for (ok, nev), d in zip(results, docs):
             # the named vacuity case is about what the histories produced, whether or not a violation cut them short
             tot["with_uncle_candidates_right_after_epoch_boundary"] += sum(1 for e in d["events"] if e["ev"] == "Template" and e.get("boundary"))
@@ -158,6 +159,7 @@ def run(tier):
                 tot["at_byte_limit"] += bool(e["txs"]) and e["bytes"] + 230 > e["maxBytes"]
                 tot["at_byte_limit_with_uncles"] += bool(e["txs"]) and e["bytes"] + 230 > e["maxBytes"] and e.get("uncles", 0) > 0
                 tot["at_proposal_limit"] += len(e["props"]) == e["maxProps"]
+                tot["at_byte_limit_by_proposals"] += len(e["props"]) >= 4 and e["bytes"] + 10 > e["maxBytes"]
                 c.case({"h": d["summary"]["seed"], "parent": e["parent"], "txs": e["txs"], "props": e["props"], "m": e["moment"]},
                        bool(e["txs"]) or e.get("uncles", 0) > 0 or e["moment"] != "after-operation")
             tot["reorgs"] += d["summary"]["reorgs"]
